@@ -16,5 +16,6 @@ extern spec_state verif_T0, verif_T1, verif_T2, verif_T3, verif_T4, verif_T5, ve
 #define VERIF_IDX(fr) ((fr) < 12 ? (unsigned)(fr) : 12u)
 
 #include "ghost_permute.h"
+#include "ghost_aead.h"
 
 #endif
